@@ -20,8 +20,9 @@ pub fn ok<V>(r: Result<V, garnish_lang_simple_data::DataError>) -> Option<V> {
     }
 }
 
-/// a BasicGarnishData with small blocks (Kani: via the cfg(kani) export hook; natively: default settings)
-#[cfg(kani)]
+/// a BasicGarnishData with small blocks (needs the export hook: cfg(kani) under Kani, cfg(garnish_verif) for the
+/// native replay binary; a plain native build - selftest, explore - falls back to the default settings)
+#[cfg(any(kani, garnish_verif))]
 pub fn small_basic(data_cells: usize) -> Basic {
     use garnish_lang_simple_data::{ReallocationStrategy, StorageSettings};
     let s = |n: usize| StorageSettings::new(n, usize::MAX, ReallocationStrategy::FixedSize(4));
@@ -29,19 +30,19 @@ pub fn small_basic(data_cells: usize) -> Basic {
 }
 
 /// every block: initial size 1, multiplicative growth x2 (1 -> 2 -> 4 -> 8)
-#[cfg(kani)]
+#[cfg(any(kani, garnish_verif))]
 pub fn small_basic_x2() -> Basic {
     use garnish_lang_simple_data::{ReallocationStrategy, StorageSettings};
     let s = || StorageSettings::new(1, usize::MAX, ReallocationStrategy::Multiplicative(2));
     BasicGarnishData::new_with_settings(s(), s(), s(), s(), s(), s(), NoOpCompanion::new()).unwrap()
 }
 
-#[cfg(not(kani))]
+#[cfg(not(any(kani, garnish_verif)))]
 pub fn small_basic_x2() -> Basic {
     BasicGarnishData::new(NoOpCompanion::new()).unwrap()
 }
 
-#[cfg(not(kani))]
+#[cfg(not(any(kani, garnish_verif)))]
 pub fn small_basic(_data_cells: usize) -> Basic {
     BasicGarnishData::new(NoOpCompanion::new()).unwrap()
 }
